@@ -41,9 +41,23 @@ package kgo
 // end listing is needed to bound the result (exact offsets, start+n, end-n); otherwise the special offset itself.
 // Both requests carry the configured isolation level (so under read_committed "end" is the last stable offset),
 // and every partition of the second request lists the end (-1).
+// the generated constructors only build a value (trusted: they are `var v T; v.Default(); return v`)
+//@ extern func (kmsg) NewPtrListOffsetsRequest() (r *kmsg.ListOffsetsRequest)
+//@   modifies nothing
+//@   ensures fresh(r)
+//@ extern func (kmsg) NewListOffsetsRequestTopic() (t kmsg.ListOffsetsRequestTopic)
+//@   modifies nothing
+//@ extern func (kmsg) NewListOffsetsRequestTopicPartition() (p kmsg.ListOffsetsRequestTopicPartition)
+//@   modifies nothing
+
 //@ func (o offsetLoadMap) buildListReq(isolationLevel int8) (r1 *kmsg.ListOffsetsRequest, r2 *kmsg.ListOffsetsRequest)
 //@   prop C40
 //@   site store IsolationLevel#0 assert [isolation-level] val == isolationLevel
+//@   loop 0 invariant r1 != nil && r1.IsolationLevel == isolationLevel
+//@   loop 1 invariant r1 != nil && r1.IsolationLevel == isolationLevel
+//@   loop 2 invariant r1 != nil && r1.IsolationLevel == isolationLevel && r2 != nil && r2.IsolationLevel == isolationLevel && r1 != r2
+//@   loop 3 invariant r1 != nil && r1.IsolationLevel == isolationLevel && r2 != nil && r2.IsolationLevel == isolationLevel && r1 != r2
+//@   ensures [both-requests-carry-the-isolation-level] r1.IsolationLevel == isolationLevel && (r2 != nil ==> r2.IsolationLevel == isolationLevel)
 //@   site store Timestamp#0 assert [what-is-listed] val == ite(offset.Offset.afterMilli, offset.Offset.at,
 //@        ite(offset.Offset.at >= 0 || (offset.Offset.at == -2 && offset.Offset.relative > 0) || (offset.Offset.at == -1 && offset.Offset.relative < 0), -2, offset.Offset.at))
 //@   site store Timestamp#1 assert [second-request-lists-the-end] val == -1
